@@ -50,6 +50,8 @@ STD_ENUMS = {
     'ControlFlow': ['Continue', 'Break'],
     'Ordering': ['Less', 'Equal', 'Greater'],        # discriminants -1,0,1 handled specially
     'Shutdown': ['Read', 'Write', 'Both'],
+    'SocketAddr': ['V4', 'V6'],
+    'IpAddr': ['V4', 'V6'],
     'AtomicOrdering': ['Relaxed', 'Release', 'Acquire', 'AcqRel', 'SeqCst'],
 }
 
@@ -243,6 +245,30 @@ class Program:
                     variants.append(mm.group(1))
             if variants and name not in STD_ENUMS:
                 self.enums[name] = variants
+
+    def struct_field_names(self, name, crate='tiny_http'):
+        """declaration order of the named fields of a struct of the crate (MIR field indices follow it)"""
+        root = self.src_root[crate]
+        for dirpath, dirs, files in os.walk(root):
+            for fn in sorted(files):
+                if not fn.endswith('.rs'):
+                    continue
+                text = re.sub(r'//[^\n]*', '', open(os.path.join(dirpath, fn), encoding='utf-8').read())
+                m = re.search(r'\bstruct\s+' + re.escape(name) + r'\s*(<[^{;]*?>)?\s*(where[^{;]*)?\{', text)
+                if not m:
+                    continue
+                j = find_matching(text, m.end() - 1)
+                out = []
+                for part in split_top(text[m.end():j]):
+                    part = part.strip()
+                    while part.startswith('#['):
+                        k = find_matching(part, 1)
+                        part = part[k + 1:].strip()
+                    mm = re.match(r'^(?:pub(?:\([^)]*\))?\s+)?([A-Za-z_][A-Za-z0-9_]*)\s*:', part)
+                    if mm:
+                        out.append(mm.group(1))
+                return out
+        raise Unsupported('struct %s not found in the source' % name)
 
     def variant_index(self, enum, variant):
         vs = self.enums.get(enum)
@@ -821,6 +847,9 @@ class Interp:
             else:
                 val = (1 << w) - 1 if which == 'MAX' else 0
             return bv(val, w)
+        ec = getattr(self, 'extra_consts', None)
+        if ec and len(segs) >= 2 and '::'.join(segs[-2:]) in ec:
+            return ec['::'.join(segs[-2:])]()
         # named constant with a MIR body
         last = sp.split('::')[-1]
         for key in (sp, frame.fn.crate + '::' + sp, last, frame.fn.crate + '::' + last):
@@ -1422,6 +1451,12 @@ class Interp:
         exact = [c for c in cands if getattr(c, 'impl', None) is not None and c.impl.trait_args.replace(' ', '') == targ]
         if len(exact) == 1:
             return exact[0]
+        if not exact and targ:
+            # same last path segment, and both (or neither) name the unix flavour of a std::net type
+            nrm = lambda t: (t.split('::')[-1], 'unix' in t)
+            near = [c for c in cands if getattr(c, 'impl', None) is not None and nrm(c.impl.trait_args.replace(' ', '')) == nrm(targ)]
+            if len(near) == 1:
+                return near[0]
         pool = exact or cands
         # by run-time types of the arguments
         best = []
